@@ -197,7 +197,7 @@ func (cl *Loader) load(file string) (config map[string]interface{}, err error) {
 				raw[k] = stringifyKeys(v)
 			}
 
-			err = mergo.Merge(&config, raw, mergo.WithOverride, mergo.WithAppendSlice, mergo.WithTypeCheck)
+			err = mergeTrees(&config, raw)
 			if err != nil {
 				return nil, err
 			}
@@ -205,6 +205,19 @@ func (cl *Loader) load(file string) (config map[string]interface{}, err error) {
 	}
 
 	return config, nil
+}
+
+// mergeTrees merges the tree of an imported file into the importing file's. mergo walks into values
+// it takes for structures (go-toml's local dates and times are structs) and panics when the other
+// side holds a mapping under the same key: that is an invalid configuration, not a crash.
+func mergeTrees(dst *map[string]interface{}, src map[string]interface{}) (err error) {
+	defer func() {
+		if r := recover(); r != nil {
+			err = fmt.Errorf("import cannot be merged: %v", r)
+		}
+	}()
+
+	return mergo.Merge(dst, src, mergo.WithOverride, mergo.WithAppendSlice, mergo.WithTypeCheck)
 }
 
 func (cl *Loader) loadDir(dir string) (map[string]interface{}, error) {
@@ -250,7 +263,7 @@ func (cl *Loader) loadDir(dir string) (map[string]interface{}, error) {
 			}
 		}
 
-		err = mergo.Merge(&cm, cml, mergo.WithOverride, mergo.WithAppendSlice, mergo.WithTypeCheck)
+		err = mergeTrees(&cm, cml)
 		if err != nil {
 			return nil, fmt.Errorf("%s: %v", files[i], err)
 		}
